@@ -36,6 +36,12 @@ def setup_imports():
     return torchsde
 
 
+def fresh_str(x):
+    """An equal but distinct string object (what a name read from a config file, argparse or JSON is): option names must be
+    compared by value, never by identity."""
+    return x if not isinstance(x, str) else "".join(list(x))
+
+
 def die_with_parent():
     """Worker processes must not outlive a check that is stopped from outside (PR_SET_PDEATHSIG, Linux only)."""
     try:
